@@ -272,12 +272,24 @@ CLAIMED.update({
          "type and id) is proved against a whole-view frame over the six request tables and the future heap: the record "
          "bearing (type, id) is consumed, only its future is completed and at most once (is_called guard => resolve's "
          "precondition), every other record, table and future is unchanged, progressive results leave the call pending, a "
-         "reply matching nothing raises ProtocolError and consumes nothing.",
+         "reply matching nothing raises ProtocolError and consumes nothing.  The request-issuing side is proved function by "
+         "function (publish, call, the _subscribe / _register closures of subscribe / register, _unsubscribe, _unregister, "
+         "with the four *Options.message_attr() inlined): exactly one request message is handed to the transport; it carries "
+         "the id IdGenerator.next() returned, which no pending request of that kind bears (table invariant: pending ids <= "
+         "the generator's counter, preserved), the given URI, the caller's args / kwargs objects, and every option exactly "
+         "as given (absent stays absent, falsy values and empty lists are kept, a single receiver becomes a one-element "
+         "list, receive_progress iff a progress handler was given, correlation attributes copied); the request is recorded "
+         "with the pending result that is returned (fresh, not completed) before the message is sent; every other pending "
+         "request is untouched; when the transport refuses the message nothing stays pending.",
     note="Trusted: z3, pyvc incl. its Boogie-style record heap (distinct allocations are distinct), txaio futures as "
-         "write-once cells, message objects as typed records (their parse/constructors belong to C03/C08), user callbacks "
-         "opaque. Not covered: the request-issuing side (publish/call/subscribe/register build and send exactly one "
-         "message with the fresh id) - message constructors are outside the modelled subset so far.",
-    technique="contract-based deductive verification: symbolic record heap + table frames, z3"),
+         "write-once cells, message objects as typed records whose constructor stores its arguments (the real constructors "
+         "and getters are inlined in the C03 round-trip units), user callbacks opaque, ITransport.send per its interface "
+         "contract (proved per transport under C10/C13); the transport does not re-enter the session synchronously.  "
+         "Not covered: the object forms of subscribe() / register() (decorated methods collected with inspect.getmembers), "
+         "type_check wrappers (check_types), encrypted payloads (C20), wrap-around of the id generator after 2^53 requests "
+         "(precondition _next < 2^53).",
+    technique="contract-based deductive verification: symbolic record heap + table frames, optional-keyword binding of "
+              "**options.message_attr(), z3; counterexamples replayed on the real session over a recording transport"),
 })
 
 CLAIMED.update({
@@ -317,14 +329,20 @@ CLAIMED.update({
     text="The INVOCATION arm invokes the endpoint once for an active registration and a fresh request id (ProtocolError "
          "otherwise); its success and error closures are proved to send exactly one terminal reply with the invocation's "
          "request id on every path - YIELD, or ERROR(INVOCATION) when send raises SerializationError or "
-         "PayloadExceededError - and to delete the invocation record; INTERRUPT cancels exactly the pending future; the "
+         "PayloadExceededError - and to delete the invocation record; call details are handed to the endpoint exactly when it "
+         "asked for them and name the caller as the INVOCATION does; a progress callable is offered only when the caller "
+         "asked for progressive results (receive_progress is true - not merely present), and that callable (the progress "
+         "closure, its own unit) sends exactly one YIELD with progress=true, the invocation's request id and the given "
+         "arguments and leaves the invocation pending; INTERRUPT cancels exactly the pending future; the "
          "three send() implementations (WebSocket, Twisted RawSocket, asyncio RawSocket) are proved against the "
          "ITransport.send interface contract the closures rely on (only SerializationError / PayloadExceededError / "
          "TransportLost escape, an error means nothing was written, the announced size limit is respected).",
     note="Trusted: z3, pyvc, txaio (as_future runs the endpoint, add_callbacks calls success or error exactly once, cancel), "
          "serializer.serialize may raise any Exception, _message_from_exception's contract (C18), message constructors as "
-         "records. Not covered: the progress closure, encrypted payloads (C20), TransportLost between endpoint return "
-         "and reply (excluded by the statement).",
+         "records. Not covered: that a progress callable is not used after the terminal reply (the endpoint's own "
+         "discipline; the session does not guard it), positional / keyword arguments of the endpoint call (opaque here, "
+         "C20 covers the decode path), encrypted payloads (C20), TransportLost between endpoint return and reply "
+         "(excluded by the statement).",
     technique="contract-based deductive verification: closure units against an interface contract, z3"),
 })
 
